@@ -48,6 +48,7 @@ const (
 	kAsg   // assignment, x is kVar
 	kTern  // x ? y : z
 	kParen // explicit parentheses
+	kIdx   // a[ x ] element read (oracle leg only)
 )
 
 type node struct {
@@ -68,7 +69,7 @@ var binPrec = map[string]int{
 
 func level(n *node) int {
 	switch n.k {
-	case kLit, kVar, kInc, kParen:
+	case kLit, kVar, kInc, kParen, kIdx:
 		return 0
 	case kUn:
 		return 1
@@ -97,6 +98,11 @@ func toks(n *node, lvl int, out *[]string) {
 		*out = append(*out, "(")
 		toks(n.x, 15, out)
 		*out = append(*out, ")")
+	case kIdx:
+		// no blank between the name and `[` (bash requires them adjacent)
+		*out = append(*out, n.text+"[")
+		toks(n.x, 15, out)
+		*out = append(*out, "]")
 	case kUn:
 		*out = append(*out, n.op)
 		toks(n.x, 1, out)
@@ -140,7 +146,7 @@ func render(ts []string, tight bool) string {
 	for i, t := range ts {
 		if i > 0 {
 			prev := ts[i-1]
-			need := !tight || (!isWordTok(prev) && !isWordTok(t) && prev != "(" && prev != ")" && t != "(" && t != ")") ||
+			need := !tight || (!isWordTok(prev) && !isWordTok(t) && prev != "(" && prev != ")" && t != "(" && t != ")" && prev != "]" && t != "]") ||
 				// never form `<(` or `>(` (process substitution in an assignment word)
 				t == "(" && (strings.HasSuffix(prev, "<") || strings.HasSuffix(prev, ">"))
 			if need {
@@ -492,6 +498,15 @@ func (env refEnv) eval(n *node, depth int) (*big.Int, refErr) {
 		return env.varValue(n.text, depth)
 	case kParen:
 		return env.eval(n.x, depth)
+	case kIdx:
+		i, e := env.eval(n.x, depth)
+		if e != rOK {
+			return nil, e
+		}
+		if i.Sign() < 0 || i.BitLen() > 20 {
+			return nil, rUndef // negative subscripts (counted from the end / errors) are not generated
+		}
+		return env.varValue(n.text+"["+i.String()+"]", depth)
 	case kUn:
 		v, e := env.eval(n.x, depth)
 		if e != rOK {
@@ -964,6 +979,11 @@ type oCase struct {
 	elemAsg bool
 }
 
+func mustAtoi(s string) int {
+	n, _ := strconv.Atoi(s)
+	return n
+}
+
 func shQuote(s string) string { return "'" + strings.ReplaceAll(s, "'", `'\''`) + "'" }
 
 const dumpLine = `echo "D x=${x-U} y=${y-U} z=${z-U} w=${w-U} u=${u-U} t=${t-U} i=${i-U} j=${j-U}"`
@@ -1024,6 +1044,35 @@ func usesNonLit(n *node, env refEnv, seen map[string]bool) bool {
 		return false
 	}
 	return usesNonLit(n.x, env, seen) || usesNonLit(n.y, env, seen) || usesNonLit(n.z, env, seen)
+}
+
+// injectIdx replaces some literal leaves by element reads a[ small expression ]
+func injectIdx(r *rand.Rand, n *node) {
+	if n == nil {
+		return
+	}
+	if n.k == kLit && r.IntN(3) == 0 {
+		var ix *node
+		switch r.IntN(4) {
+		case 0:
+			ix = &node{k: kVar, text: hx.Pick(r, []string{"x", "y", "u", "t"})}
+		case 1:
+			ix = &node{k: kBin, op: hx.Pick(r, []string{"+", "%", "*", "&"}), x: litNode(r, int64(r.IntN(4))), y: litNode(r, int64(1+r.IntN(3)))}
+		case 2:
+			ix = &node{k: kInc, op: "++", post: r.IntN(2) == 0, x: &node{k: kVar, text: hx.Pick(r, []string{"u", "t"})}}
+		default:
+			ix = litNode(r, int64(r.IntN(6)))
+		}
+		*n = node{k: kIdx, text: "a", x: ix}
+		return
+	}
+	if n.k == kAsg || n.k == kInc {
+		injectIdx(r, n.y)
+		return
+	}
+	injectIdx(r, n.x)
+	injectIdx(r, n.y)
+	injectIdx(r, n.z)
 }
 
 type loopSpec struct{ ini, cond, post *node }
@@ -1204,6 +1253,18 @@ func genOracle(r *rand.Rand, i int) *oCase {
 	switch c.ctx {
 	case cEcho, cCmd, cSub:
 		e := gen(r, 1+r.IntN(4), false)
+		if c.ctx != cSub && r.IntN(4) == 0 {
+			// element reads of an indexed array holding small integers (a[4], a[5] are unset)
+			vals := []string{}
+			for k := 0; k < 4; k++ {
+				v := strconv.Itoa(r.IntN(30))
+				vals = append(vals, v)
+				key := "a[" + strconv.Itoa(k) + "]"
+				renv[key] = &binding{name: key, text: v, tree: &node{k: kLit, text: v, val: int64(mustAtoi(v))}, isLit: true}
+			}
+			sb.WriteString("a=(" + strings.Join(vals, " ") + ")\n")
+			injectIdx(r, e)
+		}
 		c.exprs = []*node{e}
 		z, er := renv.eval(e, 0)
 		if er == rUndef || er == rDeep || er == rSyntax {
